@@ -41,9 +41,11 @@ ASSUMPTIONS = [
 ]
 MIN_COUNTERS = {
     'quick': {'fsm_ops_compared': 20000, 'fsm_inside_ops': 3000,
-              'cond_waits_hung_checked': 300, 'ctx_checks': 20000},
+              'cond_waits_hung_checked': 300, 'ctx_checks': 20000,
+              'mt_histories': 500, 'mt_concurrent_next_calls': 5000},
     'thorough': {'fsm_ops_compared': 4000000, 'fsm_inside_ops': 500000,
-                 'cond_waits_hung_checked': 60000, 'ctx_checks': 4000000},
+                 'cond_waits_hung_checked': 60000, 'ctx_checks': 4000000,
+                 'mt_histories': 30000, 'mt_concurrent_next_calls': 300000},
 }
 
 
@@ -58,6 +60,9 @@ def plan(tier, seed):
                                first_case=f, n=n, secs=40, hard_timeout=160))
         shards.append(dict(name='crt0', mode='rt', kind='cond-rt', secs=12, batch=25,
                            p_yield=0.03, hard_timeout=120))
+        for p, (f, n) in enumerate(split(1600, 2)):
+            shards.append(dict(name=f'mt{p}', mode='nrt', kind='fsm-mt', first_case=f,
+                               n=n, secs=30, hard_timeout=160))
     else:
         for p, (f, n) in enumerate(split(2400000, 12)):
             shards.append(dict(name=f'fsm{p}', mode='nrt', kind='fsm', first_case=f,
@@ -65,6 +70,9 @@ def plan(tier, seed):
         for p, (f, n) in enumerate(split(240000, 3)):
             shards.append(dict(name=f'cnrt{p}', mode='nrt', kind='cond-nrt',
                                first_case=f, n=n, secs=500, hard_timeout=700))
+        for p, (f, n) in enumerate(split(120000, 4)):
+            shards.append(dict(name=f'mt{p}', mode='nrt', kind='fsm-mt', first_case=f,
+                               n=n, secs=500, hard_timeout=700))
         for i in range(3):
             shards.append(dict(name=f'crt{i}', mode='rt', kind='cond-rt', secs=120,
                                batch=[20, 40, 60][i], p_yield=[0.0, 0.03, 0.1][i],
@@ -76,7 +84,8 @@ def plan(tier, seed):
 # (a) routine state machine
 # ---------------------------------------------------------------------------
 
-EXCS = ['ValueError', 'KeyError', 'ZeroDivisionError', 'RuntimeError', 'VfErr']
+EXCS = ['ValueError', 'KeyError', 'ZeroDivisionError', 'RuntimeError', 'VfErr',
+        'KeyboardInterrupt', 'SystemExit', 'VfBaseErr']
 OPS = ['next', 'next', 'next', 'next', 'pause', 'resume', 'play', 'stop', 'reset']
 
 
@@ -237,9 +246,13 @@ class Real:
 
         class VfErr(Exception):
             pass
+
+        class VfBaseErr(BaseException):
+            pass
         self.excs = dict(ValueError=ValueError, KeyError=KeyError,
                          ZeroDivisionError=ZeroDivisionError, RuntimeError=RuntimeError,
-                         VfErr=VfErr)
+                         VfErr=VfErr, KeyboardInterrupt=KeyboardInterrupt,
+                         SystemExit=SystemExit, VfBaseErr=VfBaseErr)
 
         class FakeClock:
             def play(self, task, quant=None):
@@ -324,7 +337,7 @@ class Real:
             return ('exc', 'StopStream')
         except stm.RoutineException:
             return ('exc', 'RoutineException')
-        except Exception as e:
+        except BaseException as e:      # noqa: bodies also raise BaseExceptions
             return ('exc', type(e).__name__)
         raise ValueError(name)
 
@@ -577,8 +590,132 @@ def run_cond_rt(spec, acc):
     acc.count('injected_yields', inj.injected)
 
 
+# ---------------------------------------------------------------------------
+# (c) next() from several threads at once: linearisable against the model
+# ---------------------------------------------------------------------------
+
+def run_fsm_mt(spec, acc):
+    """2-4 plain threads call next() on one routine concurrently (random yields
+    injected at the statement boundaries of Routine.next).  Whatever the
+    interleaving, the routine must behave as if the calls happened one after
+    the other: every value is produced exactly once, in order, the terminal
+    transition happens once, and afterwards every call sees the terminal
+    behaviour; the body is never restarted."""
+    import sys
+    from sc3.base.main import main
+    from sc3.base import stream as stm
+    from vf.inject import Injector, func_code
+    inj = Injector([func_code(stm.Routine.next)], spec['seed'])
+    inj.p_yield = 0.25
+    inj.max_sleep = 0.0003
+    inj.start()
+    sys.setswitchinterval(2e-5)
+
+    class VfErr(Exception):
+        pass
+    try:
+        for i in iter_cases(spec):
+            rng = case_rng(spec['seed'], 'C11', 'mt', i)
+            n = rng.randint(0, 6)
+            end = rng.choice(['return', 'raise', 'always'])
+            started = [0]
+
+            def body():
+                started[0] += 1
+                for k in range(n):
+                    yield ('v', k)
+                if end == 'raise':
+                    raise VfErr('vf')
+                if end == 'always':
+                    raise stm.AlwaysYield('T')
+            r = stm.Routine(body)
+            nthreads = rng.randint(2, 4)
+            calls = n + 6
+            outs = [[] for _ in range(nthreads)]
+            go = threading.Event()
+
+            def worker(t):
+                go.wait()
+                for _ in range(calls):
+                    try:
+                        outs[t].append(('ok', r.next()))
+                    except stm.StopStream:
+                        outs[t].append(('stop',))
+                    except VfErr:
+                        outs[t].append(('err',))
+                    except BaseException as e:      # noqa
+                        outs[t].append(('other', type(e).__name__))
+            ths = [threading.Thread(target=worker, args=(t,), daemon=True)
+                   for t in range(nthreads)]
+            for t in ths:
+                t.start()
+            go.set()
+            for t in ths:
+                t.join(20)
+            acc.count('mt_histories')
+            acc.count('mt_concurrent_next_calls', nthreads * calls)
+            allo = [o for lst in outs for o in lst]
+            vals = [o[1] for o in allo if o[0] == 'ok' and o[1] != 'T']
+            bad = None
+            if any(t.is_alive() for t in ths):
+                bad = ('next-hangs', 'a thread did not finish')
+            elif sorted(vals, key=repr) != sorted([('v', k) for k in range(n)], key=repr):
+                bad = ('values-not-exactly-once',
+                       f'values seen {sorted(vals, key=repr)} expected v0..v{n - 1}')
+            elif started[0] != 1:
+                bad = ('body-restarted', f'body started {started[0]} times')
+            elif any(o[0] == 'other' for o in allo):
+                bad = ('unexpected-exception', repr([o for o in allo if o[0] == 'other'][:3]))
+            else:
+                for lst in outs:
+                    ks = [o[1][1] for o in lst if o[0] == 'ok' and o[1] != 'T']
+                    if ks != sorted(ks):
+                        bad = ('per-thread-order', repr(lst))
+                        break
+                    # terminal behaviour never followed by a value
+                    seen_end = False
+                    for o in lst:
+                        if o[0] in ('stop', 'err') or o == ('ok', 'T'):
+                            seen_end = True
+                        elif seen_end:
+                            bad = ('value-after-terminal', repr(lst))
+                            break
+                nerr = sum(1 for o in allo if o[0] == 'err')
+                nT = sum(1 for o in allo if o == ('ok', 'T'))
+                nstop = sum(1 for o in allo if o[0] == 'stop')
+                total = nthreads * calls
+                if not bad:
+                    if end == 'raise' and nerr != 1:
+                        bad = ('failure-not-exactly-once', f'{nerr} calls saw the error')
+                    elif end == 'always' and (nstop or nT != total - n):
+                        bad = ('terminal-value-not-constant',
+                               f'{nT} terminal values, {nstop} StopStream, {total - n} expected')
+                    elif end != 'always' and nT:
+                        bad = ('terminal-value-unexpected', f'{nT}')
+                    elif end != 'always' and nstop + nerr != total - n:
+                        bad = ('stop-count', f'{nstop}+{nerr} != {total - n}')
+            if not bad and r.state.name != 'Done':
+                bad = ('final-state', r.state.name)
+            if not bad and main.current_tt is not main.main_tt:
+                bad = ('current-thread-not-restored', repr(main.current_tt))
+            if bad:
+                acc.violation(f'C11/concurrent-next/{bad[0]}',
+                              {'case': i, 'n': n, 'end': end, 'threads': nthreads,
+                               'why': bad[1], 'outcomes': [repr(x)[:300] for x in outs]})
+                main.current_tt = main.main_tt
+            acc.case(h64(('mt', n, end, nthreads, i % 50)), nontrivial=n >= 2)
+            if acc.want_sample() and n >= 2:
+                acc.sample({'case': i, 'mt': {'n': n, 'end': end, 'threads': nthreads},
+                            'outcomes_thread0': [repr(x) for x in outs[0][:6]]})
+    finally:
+        inj.stop()
+    acc.count('injected_yields', inj.injected)
+
+
 def run_shard(spec, acc):
     kind = spec['shard']['kind']
+    if kind == 'fsm-mt':
+        return run_fsm_mt(spec, acc)
     if kind == 'fsm':
         run_fsm(spec, acc)
     elif kind == 'cond-nrt':
